@@ -16,8 +16,9 @@ GROUPS = {
  "C09": ("KM.Seal", ["unsealCA", "secretInjectorHandler", "loadSignersFromPemData", "signerPublicKeyToKeymasterKeys",
                      "readyzHandler", "isUnsealed", "pgpDecryptFileData"], "the functions `KM.Seal.inject` collapses into one atomic step"),
  "C16": ("KM.Conc", ["LoadUserProfile", "SaveUserProfile", "u2fTokenManagerHandler", "totpTokenManagerHandler",
-                     "BootstrapOtpAuthHandler", "userBootstrapOtpHash", "performStateCleanup"],
-         "the load/decide/save handlers `KM.Conc.decide` transcribes and the storage primitives it treats as atomic"),
+                     "BootstrapOtpAuthHandler", "userBootstrapOtpHash", "performStateCleanup",
+                     "consumeLoginChallenge", "u2fSignRequest", "u2fSignResponse", "webauthnAuthLogin", "webauthnAuthFinish"],
+         "the load/decide/save handlers `KM.Conc.decide` transcribes, the storage primitives it treats as atomic, and the\nchallenge lookup / consume steps `KM.Conc.chStep` transcribes"),
 }
 for prop, (ns, fns, what) in GROUPS.items():
     p = os.path.join(HERE, "lean/KM/Props/%s.lean" % prop)
